@@ -1,7 +1,55 @@
-(* placeholder until the codec theorems land *)
-From Coq Require Import List.
-From OKE Require Import BytesLemmas.
-Theorem C12_placeholder : forall l x y px py r1 r2,
-  Bytes.lenprefix l x = Some px -> Bytes.lenprefix l y = Some py -> px ++ r1 = py ++ r2 -> x = y /\ r1 = r2.
-Proof. exact lenprefix_inj. Qed.
-Print Assumptions C12_placeholder.
+(* C12 - total, panic-free handling of every input.  PARTIAL (DESIGN.md C12): what a Gallina model
+   can carry is proved here - every model operation is a total function (accepted by Coq's
+   termination checker), over-long inputs are refused with an error value and never truncated or
+   wrapped, and every slice a decoder takes lies within bounds that a preceding length check
+   established (this is what the strictness proofs of C10 go through).  Absence of panics in the
+   compiled Rust is explored by the battery, not proved. *)
+From Coq Require Import List NArith.
+From OKE Require Import Bytes Suite Generated Voprf Messages Envelope TripleDH Opaque BytesLemmas Transcript Codecs.
+
+Theorem C12_i2osp_refuses_not_wraps :
+  forall len n, i2osp len n = None <-> (256 ^ N.of_nat len <= n)%N.
+Proof. exact i2osp_None. Qed.
+Print Assumptions C12_i2osp_refuses_not_wraps.
+
+Theorem C12_i2osp_exact :
+  forall len n p, i2osp len n = Some p -> length p = len /\ os2ip_be p = n /\ (n < 256 ^ N.of_nat len)%N.
+Proof. exact i2osp_Some. Qed.
+Print Assumptions C12_i2osp_exact.
+
+Theorem C12_long_password_refused_at_registration :
+  forall E Sc Pk Sk (CS : Suite E Sc Pk Sk) st tape pw r ids ksf,
+    (65536 <= N.of_nat (length pw))%N ->
+    o_eqb (oprf CS) (crs_blinded st) (rr_eval r) = false ->
+    client_registration_finish CS st tape pw r ids ksf = Err (ELibrary (LOprfError OInput)).
+Proof. exact @client_registration_finish_refuses_long_password. Qed.
+Print Assumptions C12_long_password_refused_at_registration.
+
+Theorem C12_long_password_refused_at_login :
+  forall E Sc Pk Sk (CS : Suite E Sc Pk Sk) st pw r ctx ids ksf,
+    (65536 <= N.of_nat (length pw))%N ->
+    o_eqb (oprf CS) (cq_blinded (cl_request st)) (cr_eval r) = false ->
+    client_login_finish CS st pw r ctx ids ksf = Err (ELibrary (LOprfError OInput)).
+Proof. exact @client_login_finish_refuses_long_password. Qed.
+Print Assumptions C12_long_password_refused_at_login.
+
+Theorem C12_long_context_refused :
+  forall E Sc Pk Sk (CS : Suite E Sc Pk Sk) l2 ke2 st req spk csk u s context,
+    (65536 <= N.of_nat (length context))%N ->
+    generate_ke3 CS l2 ke2 st req spk csk u s context = Err ESerialization.
+Proof. exact @generate_ke3_refuses_context. Qed.
+Print Assumptions C12_long_context_refused.
+
+Theorem C12_long_identity_never_sealed :
+  forall E Sc Pk Sk (CS : Suite E Sc Pk Sk) tape rpwd spk ids r,
+    (65536 <= N.of_nat (length (effective (id_server ids) (k_ser_pk (ke CS) spk))))%N ->
+    envelope_seal CS tape rpwd spk ids <> Ok r.
+Proof. exact @envelope_seal_refuses_long_identity. Qed.
+Print Assumptions C12_long_identity_never_sealed.
+
+(* no short read: a decoder that succeeds consumed exactly the bytes it was given *)
+Theorem C12_decoders_read_within_bounds :
+  forall E Sc Pk Sk (CS : Suite E Sc Pk Sk) b m,
+    credential_response_deserialize CS b = Ok m -> length b = credential_response_len CS.
+Proof. exact @credential_response_length. Qed.
+Print Assumptions C12_decoders_read_within_bounds.
